@@ -26,6 +26,7 @@ func heapComp(name string) func(a, b int) bool {
 type heapRunner struct {
 	h    *heap.Heap[int]
 	comp string
+	decoyHolder
 }
 
 func firstIndex(a []int, v int) int {
@@ -115,7 +116,14 @@ func withSpare(data []int) []int {
 }
 
 func init() {
-	kinds["heap"] = func(p []string) Runner { return &heapRunner{heap.NewHeap(heapComp(p[0])), p[0]} }
+	kinds["heap"] = func(p []string) Runner {
+		r := &heapRunner{h: heap.NewHeap(heapComp(p[0])), comp: p[0]}
+		r.d.mk = func() decoy {
+			h := heap.NewHeap(heapComp(p[0]))
+			return decoy{put: func(v int) { h.Push(v) }, take: func() { h.Pop() }}
+		}
+		return r
+	}
 	gens["C03"] = genC03
 }
 
@@ -312,6 +320,9 @@ func genC03(g *Gen) {
 			ops = append(ops, "pop")
 		}
 		ops = append(ops, "size")
+		if len(ops)%3 == 0 { // other live instances of the same type are operated in between
+			ops = withDecoys(ops, r, nil)
+		}
 		g.Emit("heap", []string{comp}, ops)
 	}
 }
